@@ -67,6 +67,17 @@ impl R {
             x: false,
         }
     }
+    /// as `leaf`, with an explicit bound `d2` of |f''| in the neighbourhood of `x` (for functions whose
+    /// curvature falls off at large arguments, where `leaf`'s max(|f|, |f'|, 1) is far too large)
+    #[inline]
+    pub fn leaf2(x: R, fx: f64, dfx: f64, d2: f64, ulps: f64) -> R {
+        R {
+            v: fx,
+            e: dfx.abs() * x.e + d2.abs() * unit() * x.e * x.e + ulps * fx.abs(),
+            m: fx.abs(),
+            x: false,
+        }
+    }
     #[inline]
     pub fn is_exact_zero(&self) -> bool {
         self.v == 0.0 && self.e == 0.0 && self.x
